@@ -48,6 +48,7 @@ type FuncInfo struct {
 	Req      []*GenFunc
 	Ens      []*GenFunc
 	Mod      []*GenFunc
+	Keep     []*GenFunc // places the function restores (callers keep their value)
 	ModKind  []string // "ptr" or "slice" per Mod entry (filled at exec time from the type)
 	LoopInv  map[int][]*GenFunc
 	LoopDec  map[int]*GenFunc
@@ -260,6 +261,11 @@ func loadWorld(repo string, extraContractFiles []string) (*World, error) {
 			}
 		}
 		for _, g := range fi.Mod {
+			if err := bind(g); err != nil {
+				return nil, err
+			}
+		}
+		for _, g := range fi.Keep {
 			if err := bind(g); err != nil {
 				return nil, err
 			}
@@ -676,6 +682,13 @@ func generateSpecs(w *World, p *packages.Package, contracts []*FuncContract) (st
 				}
 				fi.Mod = append(fi.Mod, g)
 			}
+		}
+		for ki, it := range fc.Keeps {
+			g, err := mk(fmt.Sprintf("vc_%s_keep%d", san, ki+1), "interface{}", "&"+it, false, nil, false)
+			if err != nil {
+				return "", fmt.Errorf("%s: keeps %s: %v", fc.File, it, err)
+			}
+			fi.Keep = append(fi.Keep, g)
 		}
 		for _, lc := range fc.Loops {
 			if lc.Ord < 0 || lc.Ord >= len(fi.Fors) {
